@@ -97,8 +97,11 @@ where
                     // We need to be able to read at least fixed header and one byte of size to proceed.
                     if *size >= 2 {
                         *state = PacketStreamState::ReadPacketLen;
-                        return self.poll_next(cx);
                     }
+
+                    // Poll again: either the length can be parsed now, or the reader has to be
+                    // polled until it returns Pending (only then is the waker registered).
+                    return self.poll_next(cx);
                 }
 
                 Poll::Pending
